@@ -51,7 +51,7 @@ const (
 	maxKnobs   = 16
 	maxSites   = 1 << 16
 	maxPairs   = 1 << 12
-	watchdogMs = 90000
+	watchdogMs = 45000
 )
 
 type task struct {
@@ -65,6 +65,8 @@ type task struct {
 	prio       int
 	steps      int
 	lastSite   int
+	// hand-over fast path (plain builds only): 0 idle, 1 spinning, 2 sleeping in read(2), 3 released
+	spin uint32
 }
 
 // TraceEv is one scheduling decision or fault in the decoded trace.
@@ -81,6 +83,10 @@ type Sim struct {
 	T      *Tape
 	Policy int
 	Budget int
+	// Coarse turns the statement-level yields inserted by the instrumenter
+	// (site ids below HarnessSiteBase) into no-ops: only seam calls and
+	// channel/lock operations remain scheduling points.
+	Coarse bool
 
 	tasks  [maxTasks]task
 	ntasks int
@@ -116,6 +122,7 @@ type Sim struct {
 	// mainRel before it starts tasks and tasks acquire it when they resume.
 	rel     [maxTasks]uint32
 	mainRel uint32
+	inOp    bool
 
 	pairs    [maxPairs]uint32
 	npairs   int
@@ -198,11 +205,20 @@ func Knob(name string, def int) int {
 }
 
 func infra(msg string) {
+	infraExit(msg, 2)
+}
+
+// WatchdogExit is the exit status of a worker whose running task reached no
+// scheduling point for watchdogMs of real time (a spin or a native block in
+// code under test): resource-inconclusive for that run, never a verdict.
+const WatchdogExit = 97
+
+func infraExit(msg string, code int) {
 	fmt.Fprintln(os.Stderr, "SIMRT-INFRA: "+msg)
 	buf := make([]byte, 1<<20)
 	n := runtime.Stack(buf, true)
 	os.Stderr.Write(buf[:n])
-	os.Exit(2)
+	os.Exit(code)
 }
 
 //go:norace
@@ -258,7 +274,7 @@ func (s *Sim) mainWait() {
 			infra("poll: " + e.Error())
 		}
 		if n == 0 {
-			infra(fmt.Sprintf("watchdog: no scheduling point for %d ms (task %d %q, step %d)", watchdogMs, s.cur, s.curName(), s.step))
+			infraExit(fmt.Sprintf("watchdog: no scheduling point for %d ms (task %d %q, step %d)", watchdogMs, s.cur, s.curName(), s.step), WatchdogExit)
 		}
 		break
 	}
@@ -343,7 +359,7 @@ func (s *Sim) taskMain(id int, fn func()) {
 
 //go:norace
 func (s *Sim) firstPark(id int) {
-	rawRead(s.tasks[id].pr)
+	s.waitBaton(id)
 	atomic.LoadUint32(&s.mainRel)
 }
 
@@ -419,7 +435,7 @@ func (s *Sim) dispatch(self int) {
 	}
 	s.noteSwitch(self, next)
 	s.cur = next
-	rawWrite(s.tasks[next].pw)
+	s.release(next)
 	if self >= 0 {
 		s.park(self)
 	}
@@ -455,12 +471,85 @@ func (s *Sim) noteSwitch(self, next int) {
 //go:norace
 func (s *Sim) park(self int) {
 	atomic.StoreUint32(&s.rel[self], 1)
-	rawRead(s.tasks[self].pr)
+	s.waitBaton(self)
 	atomic.LoadUint32(&s.mainRel)
 	if s.kill {
 		runtime.Goexit()
 	}
 }
+
+// waitBaton blocks until the task is released. In plain builds the task first
+// spins briefly on its own word (a ping-pong between a caller and the ctx
+// reader's loop goroutine then costs no system call); in race builds only the
+// raw pipe is used, because the atomics would order the tasks for the detector.
+//
+//go:norace
+func (s *Sim) waitBaton(self int) {
+	t := &s.tasks[self]
+	if raceBuild {
+		rawRead(t.pr)
+		return
+	}
+	if !atomic.CompareAndSwapUint32(&t.spin, 0, 1) {
+		// released before we got here
+		atomic.StoreUint32(&t.spin, 0)
+		return
+	}
+	for i := 0; i < spinIters; i++ {
+		if atomic.LoadUint32(&t.spin) == 3 {
+			atomic.StoreUint32(&t.spin, 0)
+			return
+		}
+		spinPause()
+	}
+	if atomic.CompareAndSwapUint32(&t.spin, 1, 2) {
+		rawRead(t.pr)
+	}
+	atomic.StoreUint32(&t.spin, 0)
+}
+
+// release hands the baton to task i.
+//
+//go:norace
+func (s *Sim) release(i int) {
+	t := &s.tasks[i]
+	if raceBuild {
+		rawWrite(t.pw)
+		return
+	}
+	for {
+		old := atomic.LoadUint32(&t.spin)
+		switch old {
+		case 0, 1:
+			// not parked yet, or spinning: mark released
+			if atomic.CompareAndSwapUint32(&t.spin, old, 3) {
+				return
+			}
+		case 2:
+			rawWrite(t.pw)
+			return
+		default:
+			return
+		}
+	}
+}
+
+var spinIters = func() int {
+	if v := os.Getenv("SIMRT_SPIN"); v != "" {
+		n := 0
+		for _, c := range v {
+			if c < '0' || c > '9' {
+				return 30000
+			}
+			n = n*10 + int(c-'0')
+		}
+		return n
+	}
+	return 30000
+}()
+
+//go:noinline
+func spinPause() {}
 
 //go:norace
 func (s *Sim) eligible(i int) bool {
@@ -605,6 +694,9 @@ func (s *Sim) pick(self int) int {
 func Yield(site int) {
 	s := cur
 	if s == nil || !s.active || s.kill || s.cur < 0 {
+		return
+	}
+	if s.Coarse && site >= 0 && site < HarnessSiteBase && !s.inOp {
 		return
 	}
 	self := s.cur
@@ -783,7 +875,7 @@ func (s *Sim) runMain1() {
 	}
 	s.cur = next
 	s.logEv(next, -1, 's')
-	rawWrite(s.tasks[next].pw)
+	s.release(next)
 	s.mainWait()
 }
 
@@ -811,7 +903,7 @@ func (s *Sim) closeTasks() {
 		t := &s.tasks[i]
 		if t.state != tsDone {
 			s.cur = i
-			rawWrite(t.pw)
+			s.release(i)
 			s.mainWait()
 		}
 	}
@@ -871,6 +963,24 @@ func (s *Sim) BlockedTasks() []string {
 		}
 	}
 	return out
+}
+
+// HarnessSiteBase: site ids from here on belong to harness seams; smaller ones
+// are generated by the instrumenter.
+const HarnessSiteBase = 50000
+
+// OpYield is the scheduling point of a simulated channel or lock operation: it
+// stays one in coarse mode.
+//
+//go:norace
+func OpYield(site int) {
+	s := cur
+	if s == nil {
+		return
+	}
+	s.inOp = true
+	Yield(site)
+	s.inOp = false
 }
 
 // Site names are registered by generated code in the instrumented packages.
